@@ -17,6 +17,7 @@ EXPLANATION = (
     "stored verbatim; in the incremental parser the line handed to the line parsers is exactly the "
     "bytes between line starts and the CRLF found, the header faults after which parsing continues "
     "are exactly {Ok, UnsupportedValue}, every other fault is returned as ParseError(that fault). "
+    "A completed request is queued at once and only pop_front removes it, so requests preceding a fault are delivered. "
     "Decides these clauses for all inputs; the whole-stream 'if and only if' is not decided."
 )
 TRUSTED = ["slice indexing, str::from_utf8, String::from", "request::find returns the first occurrence"]
